@@ -7,6 +7,7 @@ import (
 
 	"github.com/jdillenkofer/pithos/internal/storage"
 	"github.com/jdillenkofer/pithos/internal/storage/database/repository/storageoutboxentry"
+	"github.com/jdillenkofer/pithos/internal/ulidutils"
 	"github.com/oklog/ulid/v2"
 )
 
@@ -190,7 +191,8 @@ func (sor *pgxRepository) FindStorageOutboxEntryChunksById(ctx context.Context, 
 
 func (sor *pgxRepository) SaveStorageOutboxEntry(ctx context.Context, tx *sql.Tx, outboxId string, storageOutboxEntry *storageoutboxentry.Entity) error {
 	if storageOutboxEntry.Id == nil {
-		id := ulid.Make()
+		// entries are replayed and looked up ORDER BY id: the id is the queue position
+		id := ulidutils.MakeOrdered()
 		storageOutboxEntry.Id = &id
 		storageOutboxEntry.CreatedAt = time.Now().UTC()
 		storageOutboxEntry.UpdatedAt = storageOutboxEntry.CreatedAt
